@@ -68,7 +68,7 @@ def int_lines(rng, quick):
                     v = c + d
                     if -2 ** 63 <= v < 2 ** 63:
                         vals.add(v)
-    for _ in range(2000 if quick else 200000):
+    for _ in range(4000 if quick else 200000):
         nb = rng.randrange(1, 9)
         vals.add(rng.randrange(-2 ** (8 * nb - 1), 2 ** (8 * nb - 1)))
     return sorted(vals)
@@ -82,7 +82,7 @@ def run(chk, model_ok=True):
     st.add("corpus", streams.corpus_lines("C15") + ["encint -32767", "encint -8388607", "encint -9223372036854775808",
                                                    "encint -127", "encint 255", "encint -129"])
     st.add("encint", [f"encint {v}" for v in ints])
-    n = 3000 if quick else 60000
+    n = 6000 if quick else 60000
     st.add("encoid", gens.lines_encoid(rng, n))
     st.add("oidstr", oid_text_lines(rng, n))
     st.add("encpdu", gens.lines_encpdu(rng, n))
